@@ -380,4 +380,23 @@ theorem tail_far_composed (off t : Int) (hev : (t - off) % 2 = 0) (s : St) (hpc 
             pc := s.pc + imm32 (t - off) } :=
   tail_far_effect (t - off) hev s hpc
 
+/-! ### non-vacuity: `progP` of Props/C12Program (`align 4 ; B: ; beqz a0, F ; call F ; addi ; not ; bne ; F: ; ret`) -/
+
+open BB.Props.C12 (Hp hp_litOK hp_offset progP lp) in
+/-- with `-c`: `beqz a0, F` became c.beqz and `call F` became c.jal; both theorems apply to the run -/
+example :
+    let r : AsmResult := { bytes := [25, 197, 49, 32, 1, 21, 147, 197, 245, 255, 227, 27, 181, 254, 130, 128],
+                           labels := [("B", 0), ("F", 14)], constants := [] }
+    (∃ (off t : Int) (a b : Nat) (o : BrOp) (n : Nat), r.labels.get "F" = some t ∧ classOf "beq" = some (.br o) ∧
+      lookupRegister (aliasReg r.constants (.str "a0")) = some a ∧ lookupRegister (aliasReg r.constants (.str "x0")) = some b ∧
+      (n = 4 ∨ n = 2) ∧ ExecAt r off n (exec (.branch o a b (t - off)) n)) ∧
+    (∃ (off t : Int), r.labels.get "F" = some t ∧ CallEffect r off t 1 1) := by
+  intro r
+  have h : assembleItems Hp true progP [] [] = .ok r := by decide
+  have hnn : NonNeg progP := by unfold NonNeg; decide
+  exact ⟨assemble_pseudo_branch_effect Hp true progP r hnn hp_litOK hp_offset (fun _ => BB.Props.C04.progP_nocomp) h
+      (A := [_, _]) (B := [_, _, _, _, _, _]) rfl (k := .brz "beq") (by decide) (real := "beq") rfl (by decide) rfl,
+    assemble_call_effect Hp true progP r hnn hp_litOK hp_offset (fun _ => BB.Props.C04.progP_nocomp) h
+      (A := [_, _, _]) (B := [_, _, _, _, _]) rfl (by decide) rfl⟩
+
 end BB.Props.C05
